@@ -125,10 +125,10 @@ def stripLead : Str → Str
 
 /-! ### titleCase, check_for_t, detokenize -/
 
-/-- `titleCase(t)`: `len(None)` raises `TypeError` when the token has no word -/
+/-- `titleCase(t)`: a token without a word is left alone (`if word is None: return`) -/
 def titleCase (cm : CaseMap) (t : Tok) : Except Crash Tok :=
   match sepWord cm t.real with
-  | (_, none) => .error .typeError
+  | (_, none) => .ok t
   | (idx, some w) =>
     if w.length ≥ 4 ∨ t.cat ≠ .minor then .ok { t with real := upperAt cm t.real idx } else .ok t
 
@@ -262,10 +262,8 @@ def startTag (name : Str) (attrs : List (Str × Str)) : Str :=
 
 def endTag (name : Str) : Str := '<' :: '/' :: name ++ ['>']
 
-/-- `x.capitalize()` -/
-def capitalize (cm : CaseMap) : Str → Str
-  | [] => []
-  | c :: r => cm.upper c :: r.map cm.lower
+/-- lines 335-338: `idx=len(sepWordRE.match(r).group(1)); if idx<len(r): r=r[0:idx]+r[idx].upper()+r[idx+1:]` -/
+def capFirst (cm : CaseMap) (r : Str) : Str := upperAt cm r (sepWord cm r).1
 
 /-- `x += "'" if x.endswith("s") else "'s"` -/
 def addPoss (x : Str) : Str := if endsWith x ['s'] then x ++ ['\''] else x ++ ['\'', 's']
@@ -312,30 +310,43 @@ def applyEn (tb : Tables) : List Str → List Tok → Except Crash (List Tok)
     let l ← wrapWith ba.1 ba.2 l
     applyEn tb r l
 
+/-- lines 331-332: `if self.getProp("poss"): cList[-1].realization += …` -/
+def possStep (o : Opts) (l : List Tok) : Except Crash (List Tok) :=
+  if o.poss then
+    match l with
+    | [] => .error .indexError
+    | _ => .ok (modLast addPoss l)
+  else .ok l
+
+/-- lines 334-338: `if self.getProp("cap") == True:` upper-case the first letter of `cList[0]` -/
+def capStep (cm : CaseMap) (o : Opts) (l : List Tok) : Except Crash (List Tok) :=
+  if o.cap = .t then
+    match l with
+    | [] => .error .indexError
+    | _ => .ok (modFirst (capFirst cm) l)
+  else .ok l
+
+/-- line 350: `ens = self.props["en"] if "en" in self.props else self.props["ba"]` -/
+def ensOf (o : Opts) : List Str :=
+  match o.en with
+  | some e => e
+  | none => optList o.ba
+
 /-- lines 331-355, on the list that `removeEmpty`, `doPronounPlacement` and `doElision` left -/
-def formatCore (tb : Tables) (cm : CaseMap) (o : Opts) (l : List Tok) : Except Crash (List Tok) := do
-  let l ← if o.poss then
-      (match l with
-       | [] => .error .indexError
-       | _ => pure (modLast addPoss l))
-    else pure l
-  let l ← if o.cap = .t then
-      (match l with
-       | [] => .error .indexError
-       | _ => pure (modFirst (capitalize cm) l))
-    else pure l
-  let l ← applyTags (optList o.tags) l
-  let l ← applyA tb (optList o.a) l
-  let l ← applyB tb (optList o.b) l
-  let ens := match o.en with
-    | some e => e
-    | none => optList o.ba
-  applyEn tb ens l
+def formatCore (tb : Tables) (cm : CaseMap) (o : Opts) (l : List Tok) : Except Crash (List Tok) :=
+  possStep o l >>= fun l =>
+  capStep cm o l >>= fun l =>
+  applyTags (optList o.tags) l >>= fun l =>
+  applyA tb (optList o.a) l >>= fun l =>
+  applyB tb (optList o.b) l >>= fun l =>
+  applyEn tb (ensOf o) l
 
 /-- `doFormat(cList)`; `pre` stands for `doPronounPlacement` followed by `doElision` (owned by C06) -/
 def doFormat (tb : Tables) (cm : CaseMap) (o : Opts) (pre : List Tok → List Tok) (toks : List Tok) :
     Except Crash (List Tok) :=
-  formatCore tb cm o (pre (removeEmpty toks))
+  match removeEmpty toks with
+  | [] => .ok []                       -- `if len(cList)==0: return cList`
+  | l => formatCore tb cm o (pre l)
 
 /-! ### the tree fold of realization (formatting part only) -/
 
